@@ -296,6 +296,8 @@ func runC11(o *opts) error {
 	qgen.all(o, r)
 	// stream M: filters with several comparisons in which literals repeat; sequences of filters
 	qgen.allM(o, r)
+	// in-lists of every length and order (Q and M cases)
+	qgen.allL(o, r)
 	writeJSON(o.out, "stats.json", stats)
 	return nil
 }
